@@ -1499,6 +1499,22 @@ fn gen_c08(o: &mut Out, r: &mut Rng, d: &GDict, tier: &str, cuts: bool) {
                 hs[k] = "err".into();
                 o.line(&format!("serve {} {} {}", hs.join(","), random_events(r, &stream), random_wscript(r, total_ans)));
             }
+            // an answer that cannot be encoded (a Time in 2040) at every position: nothing of it is written, the loop ends
+            for k in 0..nreq {
+                o.case(&format!("serve unencodable={} reqlens={} anslens={}", k, rl.join(","), al.join(",")));
+                o.line("mclear");
+                for (i, a) in answers.iter().enumerate() {
+                    let mut ls = vec![];
+                    a.ops(r, &mut ls);
+                    o.lines(&ls);
+                    if i == k {
+                        o.line("val time 2524608000 0");
+                        o.line(&format!("add_avp {} - 64", d.by_type(T_TIME)[0].code));
+                    }
+                    o.line("msave");
+                }
+                o.line(&format!("serve {} {} {}", all_ok.join(","), random_events(r, &stream), random_wscript(r, total_ans)));
+            }
             // one malformed frame at every position (several kinds of malformation)
             for k in 0..nreq {
                 for kind in 0..4 {
